@@ -339,6 +339,13 @@ pub fn run_main(property: &str, tier: &str) -> i32 {
         stats.absorb(r.stats);
     }
 
+    // crashes seen by AddressSanitizer or Miri are deterministic reports; a
+    // native crash after memory corruption depends on the stack layout of the
+    // process and may not replay (seeded change r8c_3), so for one signature
+    // the sanitizer's instance is the one that gets minimised and persisted
+    violations.sort_by_key(|(v, _, _, l)| {
+        if v.class == "crash" && *l == Launcher::Native { 1u8 } else { 0u8 }
+    });
     // minimise + persist (one per distinct signature, bounded)
     let mut findings: Vec<Finding> = Vec::new();
     let mut seen = std::collections::BTreeSet::new();
